@@ -13,7 +13,7 @@ C09.12-edits      poke / move / patch specs (ranges, steps, ^ and +, page prefix
 import ast, random, zlib, itertools
 from sa.core import pyfacts
 from sa.core.pyfacts import NotLiteral, FactError, Lit
-from sa.core.classfold import ClassFolder, Inst
+from sa.core.classfold import ClassFolder, Inst, ClassRef
 from sa.rules import snapref
 
 WHERE = 'skoolkit/snapshot.py'
@@ -84,7 +84,7 @@ class SnapFolder:
         c, m = self.cf.find_method('Snapshot', 'get')
         if m is None:
             raise FactError('skoolkit/snapshot.py: Snapshot.get not found')
-        return self.cf._run(m, [a.arg for a in m.args.args], [('cls', 'Snapshot'), data, ext], {}, 'Snapshot', None)
+        return self.cf._run(m, [a.arg for a in m.args.args], [ClassRef('snapshot', 'Snapshot'), data, ext], {}, 'Snapshot', None)
 
 # ---------------------------------------------------------------------------------------------------------------- model inputs
 def bank_patterns(rnd, kind):
